@@ -7,6 +7,7 @@ import genlib
 
 def main():
     lang, sw, seeds, out = sys.argv[1], json.loads(sys.argv[2]), json.loads(sys.argv[3]), sys.argv[4]
+    SHAPES = sys.argv[5] if len(sys.argv) > 5 else None          # (genlib.setup rewrites sys.argv)
     genlib.setup(lang, dis_use=sw["disUse"], dis_contra=sw["disContra"], no_bounds=sw["noBounds"], no_param_fn=sw["noParamFn"])
     import pser
     import scan
@@ -75,7 +76,83 @@ def main():
                 a["surface"] = surface.surface(lang, text)
                 progs.append(a)
         return progs
-    progs = genlib.in_big_stack(work)
+    def expr_work():
+        """expression shapes (spec/HExprGen.tla): val res = (L op R) over fixed declarations, as real programs"""
+        from src.ir import ast, types as tp, BUILTIN_FACTORIES
+        from src.ir import context as ctx
+        shapes = json.load(open(SHAPES))
+        bt = BUILTIN_FACTORIES[lang]
+        G = ast.GLOBAL_NAMESPACE
+        Int = bt.get_integer_type
+        progs = []
+        for k, sh in enumerate(shapes):
+            c = ctx.Context()
+            fld = ast.FieldDeclaration("fld", Int(), is_final=True)
+            bx = ast.ClassDeclaration("Bx", [], ast.ClassDeclaration.REGULAR, fields=[fld], functions=[], is_final=True)
+            pp = ast.ParameterDeclaration("p", Int())
+            fn = ast.FunctionDeclaration("fn", [pp], Int(), ast.Variable("p"), ast.FunctionDeclaration.FUNCTION)
+            vs = [ast.VariableDeclaration("v%d" % i, ast.IntegerConstant(i + 1, Int()), is_final=True, var_type=Int()) for i in (0, 1)]
+            c.add_class(G, "Bx", bx)
+            c.add_var(G + ("Bx",), "fld", fld)
+            c.add_func(G, "fn", fn)
+            c.add_var(G + ("fn",), "p", pp)
+            for v in vs:
+                c.add_var(G, v.name, v)
+
+            def operand(kind, i):
+                lit = lambda base: ast.IntegerConstant(base + i, Int())
+                sig = bt.get_function_type(1).new([Int(), Int()])
+                if kind == "int":
+                    return lit(4711)
+                if kind == "real":
+                    return ast.RealConstant("47.1%d" % (i + 1), bt.get_double_type())
+                if kind == "str":
+                    return ast.StringConstant("lit%d" % i)
+                if kind == "var":
+                    return ast.Variable("v%d" % i)
+                if kind == "lambda":
+                    lp = ast.ParameterDeclaration("lp%d" % i, Int())
+                    lam = ast.Lambda("lam%d" % i, [lp], Int(), lit(4811), sig)
+                    c.add_lambda(G + ("res",), lam.name, lam)
+                    c.add_var(G + ("res", lam.name), lp.name, lp)
+                    return lam
+                if kind == "funref":
+                    return ast.FunctionReference("fn", None, sig)
+                if kind == "new":
+                    return ast.New(bx.get_type(), [lit(4911)])
+                if kind == "call":
+                    return ast.FunctionCall("fn", [ast.CallArgument(lit(5011))])
+                if kind == "field":
+                    return ast.FieldAccess(ast.New(bx.get_type(), [lit(5111)]), "fld")
+                if kind == "cond":
+                    return ast.Conditional(ast.BooleanConstant("true"), lit(5211), lit(5311), Int())
+                if kind == "bool":
+                    return ast.BooleanConstant("false")
+                return ast.CharConstant("c")
+            opn = sh["op"]
+            cls_, oper = ((ast.LogicalExpr, ast.Operator(opn)) if opn in ("&&", "||") else
+                          (ast.ComparisonExpr, ast.Operator(opn)) if opn in (">", "<=") else
+                          (ast.EqualityExpr, ast.Operator("==", is_not=(opn == "!="))))
+            try:
+                expr = cls_(operand(sh["l"], 0), operand(sh["r"], 1), oper)
+                res = ast.VariableDeclaration("res", expr, is_final=True, var_type=bt.get_boolean_type())
+                c.add_var(G, "res", res)
+                prog = ast.Program(c, lang)
+                text = genlib.translate(prog)
+            except Exception:  # noqa: BLE001    (a shape this translator cannot print: C18's business, not a faithfulness question)
+                continue
+            a = pser.ser_program(prog)
+            tps = []
+            a.update(id="%s/expr/%d/%s" % (lang, k, json.dumps(sh, sort_keys=True)), counts=[[kk, n, scan.count(lang, text, kk, n)] for kk, n in probes(a)], tcounts=[])
+            del a["g"]
+            a["ct"] = {cn: (v if v["kind"] != "builtin" else {"tp": v["tp"], "kind": "builtin"}) for cn, v in a["ct"].items()}
+            for v in a["ct"].values():
+                v.pop("funs", None)
+            a["surface"] = surface.surface(lang, text)
+            a["text"] = text[:600]
+            progs.append(a)
+        return progs
+    progs = genlib.in_big_stack(expr_work if SHAPES else work)
     json.dump({"progs": progs}, open(out, "w"), separators=(",", ":"))
     print(json.dumps([out]))
 
